@@ -167,6 +167,52 @@ template<class T, class U> inline T hook_exchange_n(T *p, U v, int m) {
 #endif
 	return __atomic_exchange_n(p, (T)v, m);
 }
+template<class T, class U> inline T hook_fetch_sub(T *p, U v, int m) {
+	vs_point(VS_RMW, p);
+#if !VERIF_TSAN
+	auto &c = addr_clocks()[p]; hb_rmw(c.rel, c.has, mo(m));
+#endif
+	return __atomic_fetch_sub(p, (T)v, m);
+}
+template<class T, class U> inline T hook_fetch_or(T *p, U v, int m) {
+	vs_point(VS_RMW, p);
+#if !VERIF_TSAN
+	auto &c = addr_clocks()[p]; hb_rmw(c.rel, c.has, mo(m));
+#endif
+	return __atomic_fetch_or(p, (T)v, m);
+}
+template<class T, class U> inline T hook_fetch_and(T *p, U v, int m) {
+	vs_point(VS_RMW, p);
+#if !VERIF_TSAN
+	auto &c = addr_clocks()[p]; hb_rmw(c.rel, c.has, mo(m));
+#endif
+	return __atomic_fetch_and(p, (T)v, m);
+}
+// compare-exchange: a failing CAS only reads (and stores the observed value into *expected)
+template<class T, class U> inline bool hook_compare_exchange_n(T *p, T *expected, U desired, bool weak, int ms, int mf) {
+	(void)weak;
+	bool will = __atomic_load_n(p, __ATOMIC_RELAXED) == *expected;
+	vs_point(will ? VS_RMW : VS_LOAD, p);
+	will = __atomic_load_n(p, __ATOMIC_RELAXED) == *expected;
+#if !VERIF_TSAN
+	auto &c = addr_clocks()[p]; if(will) hb_rmw(c.rel, c.has, mo(ms)); else hb_load(c.rel, c.has, mo(mf));
+#endif
+	return __atomic_compare_exchange_n(p, expected, (T)desired, false, ms, mf);
+}
+template<class T> inline bool hook_test_and_set(T *p, int m) {
+	vs_point(VS_RMW, p);
+#if !VERIF_TSAN
+	auto &c = addr_clocks()[p]; hb_rmw(c.rel, c.has, mo(m));
+#endif
+	return __atomic_test_and_set(p, m);
+}
+template<class T> inline void hook_clear(T *p, int m) {
+	vs_point(VS_STORE, p);
+#if !VERIF_TSAN
+	auto &c = addr_clocks()[p]; hb_store(c.rel, c.has, mo(m));
+#endif
+	__atomic_clear(p, m);
+}
 inline void hook_pause() { vs_point(VS_PAUSE, nullptr); }
 
 // ---------------------------------------------------------------------------------------------
